@@ -28,6 +28,42 @@ def fn_of(node):
     return p.name if p is not None else '<module>'
 
 
+def _only_raises(if_stmt, body):
+    """The statements guarded by an option test can do nothing but raise: each is a raise, a nested `if` of the same kind, or
+    the binding of a local / a call of next() on an iterator - where no name bound or advanced there is read once the guarded
+    region is left (liveness walk), so falling out of the region leaves no trace."""
+    from ..normalise import _live_after, is_pure
+    touched = set()
+
+    def ok(stmts):
+        for st in stmts:
+            if isinstance(st, ast.Raise):
+                continue
+            if isinstance(st, ast.If):
+                if not is_pure(st.test) or not ok(st.body) or not ok(st.orelse):
+                    return False
+                continue
+            if isinstance(st, ast.Assign) and all(isinstance(t, ast.Name) for t in st.targets):
+                v = st.value
+                if isinstance(v, ast.Call) and isinstance(v.func, ast.Name) and v.func.id == 'next' and v.args and \
+                        isinstance(v.args[0], ast.Name) and all(is_pure(a) for a in v.args[1:]):
+                    touched.add(v.args[0].id)
+                elif not is_pure(v):
+                    return False
+                touched.update(t.id for t in st.targets)
+                continue
+            return False
+        return True
+    if not ok(body):
+        return False
+    fn = if_stmt
+    while fn is not None and not isinstance(fn, (ast.FunctionDef, ast.AsyncFunctionDef)):
+        fn = parent(fn)
+    if fn is None:
+        return False
+    return not (touched & _live_after(if_stmt, fn))
+
+
 def run(repo, chk):
     chk.explanation = (
         'Decided by census and information flow over the source: (1) nothing on the path from source text to emitted '
@@ -280,8 +316,8 @@ def run(repo, chk):
                 if rel == 'hidc/ast/symbols.py' and isinstance(stmt, ast.Return):
                     continue
                 n_opt += 1
-                ok = isinstance(stmt, ast.If) and any(x is n for x in ast.walk(stmt.test)) and \
-                    all(isinstance(s, ast.Raise) for s in stmt.body) and not stmt.orelse
+                ok = isinstance(stmt, ast.If) and any(x is n for x in ast.walk(stmt.test)) and not stmt.orelse and \
+                    _only_raises(stmt, stmt.body)
                 chk.expect(ok, 'C18.D3', f'{rel}::{fn_of(n)}::{src(stmt)[:50]}',
                            'an option may only decide whether an error is raised; here it can influence the typechecked tree', rel, n.lineno)
     chk.floor('reads of env.options', n_opt, 1)
